@@ -165,8 +165,13 @@ impl Part for C10 {
                 let bad = encs[*enc_idx].clone();
                 let k = keys(Kem::X25519, 10_000 + key_set, cfg.seed);
                 let info = bytes(Fill::Mix, 9, 10, cfg.seed);
-                let m = mode_spec(*mode, &k, &bytes(Fill::Mix, 32, 11, cfg.seed), &bytes(Fill::Mix, 22, 12, cfg.seed));
-                let what = format!("{} {:?} {:?} encoding #{}", suite.name(), mode, role, enc_idx);
+                // odd key sets use the (legal) EMPTY bundle in the PSK modes: the zero check must not hinge on the PSK inputs
+                let empty = mode.has_psk() && key_set % 2 == 1;
+                let m = if empty { mode_spec(*mode, &k, b"", b"") } else { mode_spec(*mode, &k, &bytes(Fill::Mix, 32, 11, cfg.seed), &bytes(Fill::Mix, 22, 12, cfg.seed)) };
+                // every call is made three times in a row with the same objects' bytes: a rejection must not turn into
+                // an acceptance (or the other way round) because the same inputs were seen before
+                for attempt in 0..3 {
+                let what = format!("{} {:?}{} {:?} encoding #{} (attempt {} with the same inputs)", suite.name(), mode, if empty { " with the empty bundle" } else { "" }, role, enc_idx, attempt + 1);
                 match role {
                     Role::RecipientAtSender => {
                         let pred = r1_setup_s(*suite, &m, &bad, &info, &k.ikm_e);
@@ -220,6 +225,7 @@ impl Part for C10 {
                             o => out.fail(format!("{}: a key that is in no DH must not be rejected: {}", what, o.map(|_| ()).class())),
                         }
                     }
+                }
                 }
             }
             Case::Negative { suite, mode, from, count } => {
